@@ -250,6 +250,46 @@ func filterMuxCheck(res *filterResult, add func(filterMismatch), gi, mi int, g *
 			res.Handles++
 			filterVerdict(add, m, err, mx.V[i])
 		}
+		// registration interleaved with dispatch: after every Handle call each topic is served (twice in a row); exactly
+		// the handlers registered SO FAR whose filter matches must run (the expectation restricted to that prefix)
+		if len(mx.Regs) <= 8 {
+			nt := len(g.Topics)
+			if nt > 30 {
+				nt = 30
+			}
+			var log2 []int
+			mux2 := &mqtt.ServeMux{}
+			for i, f := range mx.Regs {
+				idx := i + 1
+				_ = mux2.HandleFunc(f, func(*mqtt.Message) { log2 = append(log2, idx) })
+				for jj := 0; jj < nt; jj++ {
+					// boustrophedon: the first topic served after a registration is the last one served before it
+					j := jj
+					if i%2 == 1 {
+						j = nt - 1 - jj
+					}
+					t := g.Topics[j]
+					want := []int{}
+					for _, x := range mx.D[j] {
+						if x <= idx {
+							want = append(want, x)
+						}
+					}
+					for rep := 0; rep < 2; rep++ {
+						m := filterWith(base, "dispatch-after-late-registration", "ServeMux.Handle/Serve", j, t)
+						m.Reg = i
+						filterGuarded(add, m, func() {
+							log2 = log2[:0]
+							mux2.Serve(&mqtt.Message{Topic: t})
+							if !filterEqualInts(log2, want) {
+								m.Got, m.Want = filterFmtInts(log2), filterFmtInts(want)
+								add(m)
+							}
+						})
+					}
+				}
+			}
+		}
 		for j, t := range g.Topics {
 			m := filterWith(base, "dispatch", "ServeMux.Serve", j, t)
 			filterGuarded(add, m, func() {
